@@ -291,7 +291,10 @@ class FnVerifier(Verifier):
                 else:
                     outs.append(o)
         else:
-            self.note('cover:loop%d' % k, UNDECIDED, 'loop body unreachable under the invariant (vacuous)')
+            if sp.get('may_be_empty'):
+                self.note('cover:loop%d' % k, DISCHARGED, 'loop body unreachable: the iterable is empty on every path (declared may_be_empty)')
+            else:
+                self.note('cover:loop%d' % k, UNDECIDED, 'loop body unreachable under the invariant (vacuous)')
         return outs
 
     def st_While(self, st, s):
